@@ -11,7 +11,7 @@
   * models/vasicek_mc.py            : rate_path_mc, zero_price_mc
   * models/cir_montecarlo.py        : rate_path_mc, zero_price_mc (EULER, LOGNORMAL, MILSTEIN, KAHLJACKEL)
   * models/heston.py                : get_paths (EULER, EULERLOG, QUADEXP given norminvcdf(u)) and the value_mc aggregation
-  * models/lmm_mc.py                : lmm_simulate_fwds_1f (predictor-corrector step, as coded); lmm_cap_flr_pricer
+  * models/lmm_mc.py                : lmm_simulate_fwds_1f and lmm_simulate_fwds_mf (predictor-corrector step, as coded); lmm_cap_flr_pricer
         (after commit cf96daa: df initialised, arrays of size num_fwds)
   * products/equity/equity_asian_option.py : _value_mc_fast_numba (after commit 760047e: dt computed AFTER the
         averaging-period adjustment of t0 and n)
@@ -383,6 +383,36 @@ def cirExactCoeffs (o : Ops α) (rt a b sigma dt : α) : α × α × α :=
 
 /-- the value returned in the `d > 1` branch from its two draws -/
 def cirExactDraw (o : Ops α) (c ll z x : α) : α := c * (x + (z + o.sqrt ll) * (z + o.sqrt ll))
+
+
+/-! ## LMM multi-factor — `lmm_simulate_fwds_mf`, one time step `j` of one path (predictor–corrector, as coded) -/
+
+/-- `zz = Σ_q lambdas[q][i-j] * lambdas[q][k-j]` -/
+def lmmZZ (lams : List (List α)) (i m : Nat) : α := sumL (lams.map fun l => l.getD i 0 * l.getD m 0)
+
+/-- `mu += fi * ti * zz / (1 + fi * ti)` over `i = j+1..k`; `terms` = the `(fi, ti, zz_i)` -/
+def lmmDriftMF (terms : List (α × α × α)) : α :=
+  terms.foldl (fun acc x => acc + x.1 * x.2.1 * x.2.2 / (1 + x.1 * x.2.1)) 0
+
+/-- new value of forward `k = j+m`: `cur`, `taus` aligned at `j` (index 0 ↔ forward j; the accrual of forward `i` is
+`taus[i]`, in BOTH the predictor and the corrector sum), `lams[q]` indexed by the offset `i-j`, `ws` the factor draws. -/
+def lmmStepMF (o : Ops α) (dtj : α) (ws : List α) (cur taus : List α) (lams : List (List α)) (m : Nat) : α :=
+  let fk := cur.getD m 0
+  let idx := (List.range m).map (· + 1)
+  let muA := lmmDriftMF (idx.map fun i => (cur.getD i 0, taus.getD i 0, lmmZZ lams i m))
+  let ito := sumL (lams.map fun l => l.getD m 0 * l.getD m 0)
+  let rnd := sumL (List.zipWith (fun (l : List α) w => l.getD m 0 * w) lams ws) * o.sqrt dtj
+  let fB := fk * o.exp (muA * dtj - o.half * ito * dtj + rnd)
+  let muB := lmmDriftMF (idx.map fun i => (fB, taus.getD i 0, lmmZZ lams i m))
+  let muC := o.half * (muA + muB)
+  fk * o.exp (muC * dtj - o.half * ito * dtj + rnd)
+
+/-- one path: list over time `j` of the forwards `j..n-1`; `wss` = per step the factor draws `g_matrix[path, j, :]` -/
+def lmmPathMF (o : Ops α) (lams : List (List α)) : List α → List α → List (List α) → List (List α)
+  | cur, _, [] => [cur]
+  | cur, taus, ws :: wss =>
+    let nxt := (List.range cur.length).map (lmmStepMF o (taus.getD 0 0) ws cur taus lams)
+    cur :: lmmPathMF o lams (nxt.drop 1) (taus.drop 1) wss
 
 end
 
